@@ -11,7 +11,7 @@ CHECKS = {
  "C01": dict(
     level="model_checking", ref="DESIGN.md §4 C01",
     technique="TLA+ spec RtStream/RtStreamAbs checked by TLC + TLC-generated call sequences replayed through libovni and validated against the spec (trace validation)",
-    text="TLC explores every call sequence of the scaled faithful model (CAP=56) and every fill level of the real 2 MiB buffer in the size-abstracted model; invariants Fidelity, OnlyMarkers, HeaderFirst, Tiling, BufferBound. The spec is bound to src/rt/ovni.c by replaying every call at every one of the last 64 fill levels plus TLC -simulate walks through the real library and validating the recorded file sizes and the decoded stream with RtStreamTrace.tla; runs are repeated under an LD_PRELOAD shim that makes write() truthfully short, and three-thread programs (all threads freeing at once, with and without relocation from OVNI_TMPDIR) are validated stream by stream; scripts also run with relocation, with 7-digit pid/tid, without the execute event in front, with payloads handed over in several ovni_payload_add calls, with the wall clock stepped backwards under the shim, and with every sequence of up to three small events before the first flush. The inductive invariant 0 <= fill < CAP and no nested flush (RtStreamInd.tla, same arithmetic module) is discharged by Apalache for the real capacity and a symbolic jumbo size.",
+    text="TLC explores every call sequence of the scaled faithful model (CAP=56) and every fill level of the real 2 MiB buffer in the size-abstracted model; invariants Fidelity, OnlyMarkers, HeaderFirst, Tiling, BufferBound. The spec is bound to src/rt/ovni.c by replaying every call at every one of the last 64 fill levels plus TLC -simulate walks through the real library and validating the recorded file sizes and the decoded stream with RtStreamTrace.tla; runs are repeated under an LD_PRELOAD shim that makes write() truthfully short, and three-thread programs (all threads freeing at once, with and without relocation from OVNI_TMPDIR) are validated stream by stream; scripts also run with relocation, with 7-digit pid/tid, without the execute event in front, with payloads handed over in several ovni_payload_add calls, with the wall clock stepped backwards under the shim, with every sequence of up to three small events before the first flush, with every sequence of up to three flush-separated segments made of one kind of call only (plain events / marks / fitting jumbo events), and with the call under test as the last thing before the final flush. The inductive invariant 0 <= fill < CAP and no nested flush (RtStreamInd.tla, same arithmetic module) is discharged by Apalache for the real capacity and a symbolic jumbo size.",
     note="Payload/jumbo bytes are opaque ids in TLA+; their byte equality (MCV, clock, payload, jumbo data) is checked by the harness decoder against the driver's emit log. Logical clock abstracts CLOCK_MONOTONIC. Exhaustive only within the stated constants."),
  "C02": dict(
     level="model_checking", ref="DESIGN.md §4 C02",
@@ -27,8 +27,8 @@ CHECKS = {
  "C05": dict(
     level="model_checking", ref="DESIGN.md §4 C05",
     technique="TLA+ spec EmuCore (CPU occupancy, local/remote affinity) explored by TLC; transition-cover histories replayed on ovniemu; cpu.prv/thread.prv timelines validated by EmuTrace.tla",
-    text="Bounded model with 4 threads in 3 processes and 2 looms, physical and virtual CPUs, OHx/OHp/OHr/OHe/OAs/OAr incl. malformed payloads and foreign looms; invariants NoPhysOversubscription, CpuMirrorsThreads. Sampled (quick) or full (thorough) transition cover replayed on the emulator and validated event by event (nrunning, TID, PID per CPU).",
-    note="OAr to the CPU the thread is already on is Unspecified (refused by a duplicate rule the property does not mention)."),
+    text="Bounded model with 4 threads in 3 processes and 2 looms, physical and virtual CPUs, OHx/OHp/OHr/OHe/OAs/OAr incl. malformed payloads and foreign looms; invariants NoPhysOversubscription, CpuMirrorsThreads. A second instance has two looms whose threads carry the same TIDs (TIDs are unique per loom only). Sampled (quick) or full (thorough) transition cover plus a two-step cover (an accepted transition followed by a second event of the same kind) replayed on the emulator and validated event by event (nrunning, TID, PID per CPU).",
+    note="OAr to the CPU the thread is already on is accepted as the identity (fixed defect d92fa81); bounded: 4 threads, 2 looms."),
  "C06": dict(
     level="model_checking", ref="DESIGN.md §4 C06",
     technique="TLA+ specs Emu (View = function of thread state, binding and raw channel values) and Bay (channel/patch-bay/mux implementation layer) explored by TLC over all interleavings of value/state/affinity events and all write orders; Bay behaviours replayed in-process on chan.c/bay.c/mux.c; histories replayed on ovniemu for every published channel of every model; views validated by EmuTrace.tla",
@@ -53,7 +53,7 @@ CHECKS = {
  "C09": dict(
     level="fault_enumeration", ref="DESIGN.md §4 C09",
     technique="TLA+ spec RtFs (literal system-call sequence of the runtime + Crash between any two calls) checked by TLC; every system call index of every scenario program is killed with strace on the real library and the surviving directories + ovniemu verdict are validated by RtFsTrace.tla",
-    text="TLC checks C09a/C09b on the bounded family (direct/tmp mode, 1-2 flushes, copy chunk sizes, both readdir orders, accepted-prefix positions) and refutes the negative configurations (relocation in readdir order). On the code: the strace call list of each scenario must be exactly the model's script, and for every call index N the process is re-run with SIGKILL at the entry of call N; the abstract disk state must equal the model state at that crash point and the monitors are evaluated with the observed emulator verdict. The error-injection family of C10 is also run and judged by the C09 monitors (a stream is marked finished only after its bytes are in place, also on the error paths). Spec RtFs2 (two threads of one process, whole-directory acceptance by the emulator; negative configuration refuted) is bound by two-thread programs: strace -P confines the injection to the files of one thread, every matching call of either thread is killed / failed and the per-stream disk state + emulator verdicts are judged by the multi-stream monitors.",
+    text="TLC checks C09a/C09b on the bounded family (direct/tmp mode, 1-2 flushes, copy chunk sizes, both readdir orders, accepted-prefix positions) and refutes the negative configurations (relocation in readdir order). On the code: the strace call list of each scenario must be exactly the model's script, and for every call index N the process is re-run with SIGKILL at the entry of call N; the abstract disk state must equal the model state at that crash point and the monitors are evaluated with the observed emulator verdict. The error-injection family of C10 is also run and judged by the C09 monitors (a stream is marked finished only after its bytes are in place, also on the error paths). The model and the scenarios include a finished earlier stream of the same loom/pid/tid in the final directory (left by an earlier run, or by an earlier thread of the same process with the same thread id); the variant that does not remove its metadata is refuted. Spec RtFs2 (two threads of one process, whole-directory acceptance by the emulator; negative configuration refuted) is bound by two-thread programs: strace -P confines the injection to the files of one thread, every matching call of either thread is killed / failed and the per-stream disk state + emulator verdicts are judged by the multi-stream monitors.",
     note="Single-threaded scenarios plus two-thread programs whose threads run one after the other (threads write disjoint directories); SIGKILL delivered by strace at syscall entry; the emulator is the observation of 'accepted'. The scenario 'boundary-tmp' places the end event exactly on the stdio copy-chunk boundary, 'bigmeta' has metadata larger than a stdio buffer."),
  "C10": dict(
     level="fault_enumeration", ref="DESIGN.md §4 C10",
@@ -63,12 +63,12 @@ CHECKS = {
  "C11": dict(
     level="model_checking", ref="DESIGN.md §4 C11",
     technique="TLA+ specs RtProc (CAS-guarded life-cycle, thread-local state) and RtAttr (per-thread metadata) checked by TLC over all interleavings; TLC -simulate schedules replayed step by step on libovni through the hook points (drivers/mtdrive) and validated by RtProcTrace.tla; free-running runs under ThreadSanitizer",
-    text="All interleavings of 3 threads over 7 programs at linearization-point granularity with InitOnce, FiniOnce, RecordStableWhileRead, NoOpBeforeReady, Isolation, StMonotone; a load+store 'CAS' is refuted. ~1000 (quick) generated schedules are forced on the real library with gates at ovni_verif_point 1-4 and before each API call; every step outcome, refusal class and the per-thread streams on disk are validated. Free-running programs (no gates) with racing init/fini/thread_init are run many times, also under ThreadSanitizer with relocation (OVNI_TMPDIR) on; the per-operation outcomes of every run must be one of the outcome vectors TLC computes for that program (RtProcFree.tla) and TSan must report nothing. The attribute API (spec RtAttr: metadata tree with parson's dot-path rules, get/has/flush, what ovni_thread_free stores) is explored by TLC and thousands of single- and multi-threaded call sequences are replayed on libovni comparing every return value / death and each thread's stream.json with the tree TLC expects for that thread; the multi-thread walks run once more under ThreadSanitizer.",
+    text="All interleavings of 3 threads over 7 programs at linearization-point granularity with InitOnce, FiniOnce, RecordStableWhileRead, NoOpBeforeReady, Isolation, StMonotone; a load+store 'CAS' is refuted. ~1000 (quick) generated schedules are forced on the real library with gates at ovni_verif_point 1-4 and before each API call; every step outcome, refusal class and the per-thread streams on disk are validated. Free-running programs (no gates) with racing init/fini/thread_init, and seven threads starting together after another thread of the process has finished (each stream must hold exactly its own events), are run many times, also under ThreadSanitizer with relocation (OVNI_TMPDIR) on; the per-operation outcomes of every run must be one of the outcome vectors TLC computes for that program (RtProcFree.tla) and TSan must report nothing. The attribute API (spec RtAttr: metadata tree with parson's dot-path rules, get/has/flush, what ovni_thread_free stores) is explored by TLC and thousands of single- and multi-threaded call sequences are replayed on libovni comparing every return value / death and each thread's stream.json with the tree TLC expects for that thread; the multi-thread walks run once more under ThreadSanitizer.",
     note="Schedules are forced at API/hook granularity only; absence of data races in C is observed (TSan), not proved; a CAS weakened to load+store is caught by the model, only probabilistically on the code."),
  "C13": dict(
     level="model_checking", ref="DESIGN.md §4 C13",
     technique="TLA+ specs PrvTrace (clauses of the property as operators; expected row names from SystemOps) and ChanPrv (channel + Paraver writer implementation layer, replayed in process) evaluated by TLC on the real .prv/.pcf/.row files of accepted runs over TLC-generated histories of all bounded models and the metadata family",
-    text="Every clause (non-decreasing times, rows in range, header duration = last event time, types declared in the .pcf, labelled state values, .row names/count/order) is evaluated by TLC on the files written by the real emulator for thousands of accepted runs covering all models, marks, tasks (incl. type labels whose hash sits on a boundary of the gid arithmetic), ranks, two looms, multi-process systems and the breakdown files written with -b. The writer itself is modelled (spec ChanPrv: stack/single channels, propagate phases, prv.c duplicate/zero/NEXT rules, non-decreasing times, header = last advance, track.c modes; 7 refuted wrong variants) and ~19k TLC-exported call sequences are replayed in process on the real chan/bay/prv/track objects (drivers/chanprvharness).",
+    text="Every clause (non-decreasing times, rows in range, header duration = last event time, types declared in the .pcf, labelled state values, .row names/count/order) is evaluated by TLC on the files written by the real emulator for thousands of accepted runs covering all models, marks, tasks (incl. type labels whose hash sits on a boundary of the gid arithmetic), ranks, two looms, multi-process systems, histories followed by events that change no timeline (the trace lasts until the last of them) and the breakdown files written with -b. The writer itself is modelled (spec ChanPrv: stack/single channels, propagate phases, prv.c duplicate/zero/NEXT rules, non-decreasing times, header = last advance, track.c modes; 7 refuted wrong variants) and ~19k TLC-exported call sequences are replayed in process on the real chan/bay/prv/track objects (drivers/chanprvharness).",
     note="Speaks of accepted traces only; 64-bit values are folded before TLC; the semantics of breakdown rows is C20, their well-formedness is checked here."),
  "C14": dict(
     level="model_checking", ref="DESIGN.md §4 C14",
@@ -84,7 +84,7 @@ CHECKS = {
  "C18": dict(
     level="model_checking", ref="DESIGN.md §4 C18",
     technique="TLA+ spec Catalogue (over EmuFull + committed event tables): witness contexts by TLC reachability, verdict for every code of the 8 x 94 x 94 code space, Decode of description templates; probes and decodings replayed on ovnievents / ovniemu / ovnidump",
-    text="TLC finds for each of the 348 listed events the shortest history after which it is accepted, evaluates the reference semantics on all 70,688 printable three-character codes plus the single-bit changes and bit-7 images of every listed code (thorough: all 397,832 codes with bytes 33..255) (invariant: rejected exactly when neither listed nor excepted) and computes the expected ovnidump text for argument vectors (integers over the whole range of each type, labels incl. UTF-8 bytes); ovnievents output is compared with the committed table in both directions, every listed event is replayed in its witness context, unlisted codes are probed (quick: neighbourhood + sample + payload-shaped probes; thorough: the whole space) and decodings compared.",
+    text="TLC finds for each of the 348 listed events the shortest history after which it is accepted, evaluates the reference semantics on all 70,688 printable three-character codes plus the single-bit changes and bit-7 images of every listed code (thorough: all 397,832 codes with bytes 33..255) (invariant: rejected exactly when neither listed nor excepted) and computes the expected ovnidump text for argument vectors (integers over the whole range of each type, labels incl. UTF-8 bytes); ovnievents output is compared with the committed table in both directions, every listed event is replayed in its witness context, unlisted codes are probed (quick: neighbourhood + sample + payload-shaped probes; thorough: the whole space) and decodings compared, per model and in traces that mix all models so that codes differing in the model byte only are neighbours.",
     note="The table is committed data; printf formatting is reproduced for the conversions the catalogue uses."),
  "C20": dict(
     level="model_checking", ref="DESIGN.md §4 C20",
@@ -95,24 +95,24 @@ CHECKS = {
  "C03": dict(
     level="model_checking", ref="DESIGN.md §4 C03",
     technique="TLA+ specs Player/PlayerMerge (property layer Merge), PtrHeap/PlayerHeap/HeapOps (heap.h and player.c transcribed) checked by TLC incl. refinement HeapPlayer => Merge; exported heap op sequences replayed on the real heap.h (drivers/heapharness), exported stream sets replayed through ovnidump/ovnitop/ovniemu in several enumeration orders and validated by PlayerTrace.tla",
-    text="TLC checks the structural heap invariants and that every emission of the pointer-heap player is an allowed step of the abstract k-way merge (ties free), corrected clocks and output times, independence of the enumeration order, with 12 refuted negative configurations. ~19k heap op sequences are replayed on heap.h comparing popped keys and the whole pointer structure; 1200 (quick) stream sets with offset tables are materialised in several directory orders (and nftw orders through a shim), also with clocks seconds apart, with looms sharing a host name, with offset tables in integer / fixed / exponent notation with an extra event-less non-thread stream and with a loom or thread directory reached through a symbolic link, and the observed replay order / PRV times validated by TLC.",
+    text="TLC checks the structural heap invariants and that every emission of the pointer-heap player is an allowed step of the abstract k-way merge (ties free), corrected clocks and output times, independence of the enumeration order, with 12 refuted negative configurations. ~19k heap op sequences are replayed on heap.h comparing popped keys and the whole pointer structure; 1200 (quick) stream sets with offset tables are materialised in several directory orders (and nftw orders through a shim), also with clocks seconds apart, with looms sharing a host name, with one loom per process and ranks placed round-robin over the hosts, with offset tables in integer / fixed / exponent notation with an extra event-less non-thread stream and with a loom or thread directory reached through a symbolic link, and the observed replay order / PRV times validated by TLC.",
     note="ovnidump/ovnitop have no clock-offset input (offsets exercised on ovniemu only); a stream whose first corrected clock is negative is refused by the code (modelled via Base, assumption)."),
  "C12": dict(
     level="model_checking", ref="DESIGN.md §4 C12",
     technique="TLA+ spec Corrupt (acceptance function over EmuFull + SystemOps; every single corruption of 5 seed traces enumerated by TLC with expected verdict) + CorruptBytes for suite traces; each corrupted trace materialised byte for byte and run through ovniemu -l",
-    text="TLC enumerates every truncation offset, adjacent swap, clock regression, header byte alteration, JSON damage, metadata key removal/retyping/alteration, require alteration, MCV substitution (incl. codes differing from a listed one only in bit 7), payload-size change and jumbo-flag removal of the seeds and decides reject / ok / unspecified with the reference semantics (12 invariants, 4 refuted negative configurations); ~4000 (quick) corrupted traces are run on the real emulator: expected reject => exit 1 without 'finished ok' and without a signal.",
+    text="TLC enumerates every truncation offset, adjacent swap, clock regression, header byte alteration, JSON damage, metadata key removal/retyping/alteration, require alteration, MCV substitution (incl. codes differing from a listed one only in bit 7), payload-size change and jumbo-flag removal (plain and with the very bytes the jumbo event stored as a normal payload) of the seeds and decides reject / ok / unspecified with the reference semantics (12 invariants, 4 refuted negative configurations); ~4000 (quick) corrupted traces are run on the real emulator: expected reject => exit 1 without 'finished ok' and without a signal.",
     note="Where a corruption yields another valid trace the spec says ok/Unspecified; redundant guards in the code make some single-guard mutations verdict-equivalent."),
 
  "C16": dict(
     level="model_checking", ref="DESIGN.md §4 C16",
     technique="TLA+ spec OvniSort (property layer SortedStablePermutation/PrefixUntouched/Idempotent + implementation layer: region automaton, look-back ring, find_destination, stable re-sort, ring rebuild) checked by TLC for refinement over all small streams; exported streams replayed through ovnisort / ovnisort -c / ovniemu and random larger runs validated by OvniSortTrace.tla",
-    text="TLC explores every stream of <=6 events over 3-4 clock values with regions, jumbo events and several ring sizes (0.77M states quick, 9.8M thorough): Impl => Property, tightness of the look-back precondition, idempotence, five refuted negative configurations. ~7400 exported (stream, ring) pairs are materialised byte for byte and the tool's exit status, output order, size, untouched prefix, second run, check mode and emulator verdict compared with TLC's; random streams up to thousands of events and traces with two streams (the look-back ring must not leak between streams) are validated in the recorded direction; a third of all cases is written with clocks seconds apart (differences beyond 2^31 ns).",
+    text="TLC explores every stream of <=6 events over 3-4 clock values with regions, jumbo events and several ring sizes (0.77M states quick, 9.8M thorough): Impl => Property, tightness of the look-back precondition, idempotence, five refuted negative configurations. ~7400 exported (stream, ring) pairs are materialised byte for byte and the tool's exit status, output order, size, untouched prefix, second run, check mode and emulator verdict compared with TLC's; random streams up to thousands of events and traces with two streams (the look-back ring must not leak between streams) are validated in the recorded direction; a third of all cases is written with clocks seconds apart (differences beyond 2^31 ns), and about half of the normal events carry no payload.",
     note="Stability relies on glibc's merge-sort qsort; outside the preconditions the tool may fail; exit 0 always means a sorted stream (fixed defect c7e4054); a second run may fail when the sorted stream no longer satisfies the look-back (file unchanged)."),
 
  "C19": dict(
     level="exploration", ref="DESIGN.md §4 C19 (incl. its stated limit)",
     technique="TLA+ spec Decoder (stream decoder with C integer semantics scaled to 8 bits: guarded variant satisfies CursorInBounds/Progress/HeaderReadInBounds/ReadsWithinEvent, the unguarded arithmetic of the pinned commit is refuted) used to generate the structure-aware input family; all four tools run on it from the ASan+UBSan build with heap-buffer stream loading (hook H1) under timeout",
-    text="TLC proves the guarded decoder design within scaled integers (58k states quick, 23M thorough) and refutes each invariant on the arithmetic of the pinned commit; the transition/boundary classes of the model plus structure-aware mutations (size fields, flags, truncations, payload shapes per handler, sort windows wider than 2^31/2^32 ns, unterminated strings, every metadata key x JSON type, random stage) give ~6300 inputs (quick) x 5 tool invocations; a case fails iff a tool dies by a signal, times out, a sanitizer reports or the exit status is not 0/1; failures are grouped by signature.",
+    text="TLC proves the guarded decoder design within scaled integers (58k states quick, 23M thorough) and refutes each invariant on the arithmetic of the pinned commit; the transition/boundary classes of the model plus structure-aware mutations (size fields, flags, truncations, payload shapes per handler, sort windows wider than 2^31/2^32 ns, unterminated strings, every metadata key x JSON type, random stage) give ~6300 inputs (quick) x up to 7 tool invocations (ovniemu -l, ovniemu -d, ovnidump, ovnitop, ovnisort -c, ovnisort, ovnisort -n 4 so that the look-back ring wraps); a case fails iff a tool dies by a signal, times out, a sanitizer reports or the exit status is not 0/1; failures are grouped by signature.",
     note="A TLA+ model cannot establish memory safety of C: claimed is the decoder design within scaled integers plus absence of crashes/hangs/sanitizer reports on the generated family; ASan/UBSan are the observation channel."),
 }
 
